@@ -414,6 +414,12 @@ def build() -> Check:
         if bad or any(e.data.get("outcome") == "BackgroundThreadError" for t in traces for e in t.kinds("CKPT")):
             ck.ob("R6.failure-ends-operation", cls_construct(ci), not bad, (bad[0][0] + ": " + trace_sig(bad[0][1])) if bad else "", cell=st)
     ck.floor("failed_checkpoint_paths", n, 10)
+    # R2 the mailbox itself: CompletionEvent stores the error before it releases the waiter, and the waiter reads it after it was released (r7_C03 / r7_C06)
+    from sa.common import completion_event_publication
+    (ce_set, ce_wait), ce_rules, ce_an = completion_event_publication(prog)
+    ck.analysed["completion_event"] = ce_an
+    for suffix, ok, detail in ce_rules:
+        ck.ob(f"R2.completion-event-" + suffix, fn_construct(ce_wait if suffix.startswith("slot") else ce_set), ok, detail + ("" if ok else " - the blocked caller is woken WITHOUT the failure and goes on"))
     return ck
 
 
